@@ -131,6 +131,9 @@ func (w *writer) Message() MessageWriter {
 // Free frees the writer and releases its internal resources.
 func (w *writer) Free() {
 	w.close()
+	if w.writerState == nil {
+		return // already released by a failure or a previous free
+	}
 
 	if !w.releaseState && !w.releaseWriter {
 		w.free()
